@@ -5,18 +5,22 @@
 (* One action per blocking point / critical section of the code:           *)
 (*                                                                         *)
 (*  caller goroutine   Call -> Connect -> SendSet -> SendDump -> Spawn ->  *)
-(*                     ParserSelect* -> (Handler) -> Return (deferred      *)
-(*                     close)                                              *)
+(*                     ParserSelect* -> (Handler) -> CloseDone ->          *)
+(*                     CloseSocket -> Return (the deferred close)          *)
 (*  reader goroutine   ReaderRead -> ReaderHandoff | ReaderSeesCtx |       *)
 (*                     ReaderSeesDone -> exit (publishes its reason on     *)
 (*                     errChan (capacity 1), closes errChan and eventChan) *)
 (*  environment        Canceller (any time), master/network faults         *)
 (*  observer           ErrorCall / ErrorRecv (Error() after a return)      *)
 (*                                                                         *)
-(* The master sends the packet sequence `pkts` over alphabet               *)
+(* The master sends at most MaxPkts packets per connection over alphabet   *)
 (*   "ev" (non-commit event) "commit" "bad" (undecodable / unsupported)    *)
 (*   "EOF" "ERR"                                                           *)
-(* and may break the connection at any time (Break).                       *)
+(* (how many is chosen when the connection is made, what each one is when  *)
+(* it is read - the same behaviours as choosing the sequence up front, but *)
+(* nothing about the future is kept in the state, which is also what the   *)
+(* trace specification Trace_Conn needs) and may break the connection at   *)
+(* any time (Break).                                                       *)
 (* Channels are per attempt (conn[a]); s.errChan / s.ctx are fields of the *)
 (* Streamer that survive between attempts.                                 *)
 (***************************************************************************)
@@ -25,13 +29,12 @@ EXTENDS Integers, Sequences, FiniteSets, TLC
 CONSTANTS MaxPkts, MaxAttempts, MaxErrorCalls, Defects
 
 Items == {"ev", "commit", "bad", "EOF", "ERR"}
-PktSeqs == UNION {[1..n -> Items] : n \in 0..MaxPkts}
 Att == 1..MaxAttempts
 
 VARIABLES
   att,        \* number of Stream calls so far (the current / last attempt)
-  spc,        \* caller goroutine: idle connect set dump spawn select handler closing
-  net,        \* packets the master has still to send on the current connection
+  spc,        \* caller goroutine: idle connect set dump spawn select handler closing closeSock return
+  net,        \* number of packets the master has still to send on the current connection
   sock,       \* [Att -> open | broken (by master/network) | closed (by client) | none]
   ctxDone,    \* [Att -> BOOLEAN] the attempt's context was cancelled
   rpc,        \* [Att -> none read handoff exit] reader goroutine of the attempt
@@ -56,7 +59,7 @@ vars == <<att, spc, net, sock, ctxDone, rpc, held, errBuf, errClosed, evClosed, 
           result, cause, terminal, pending, cancelledAtReturn, hpc, epc, ecalls, eres, retRes, retWhy>>
 
 Init ==
-  /\ att = 0 /\ spc = "idle" /\ net = <<>> /\ sock = [a \in Att |-> "none"]
+  /\ att = 0 /\ spc = "idle" /\ net = 0 /\ sock = [a \in Att |-> "none"]
   /\ ctxDone = [a \in Att |-> FALSE]
   /\ rpc = [a \in Att |-> "none"] /\ held = [a \in Att |-> "none"]
   /\ errBuf = [a \in Att |-> <<>>] /\ errClosed = [a \in Att |-> FALSE]
@@ -86,11 +89,12 @@ ReturnWith(res, why) ==
   /\ spc' = "idle"
 
 \* dial + handshake: success opens the socket and the master picks what it will send; failure returns an error
-ConnectOk ==
+ConnectOkN(n) ==    \* n: how many packets the master will send on this connection
   /\ spc = "connect" /\ ~ctxDone[att]
-  /\ \E p \in PktSeqs : net' = p
+  /\ net' = n
   /\ sock' = [sock EXCEPT ![att] = "open"] /\ spc' = "set"
   /\ UNCHANGED <<att, ctxDone, rpc, held, errBuf, errClosed, evClosed, doneClosed, sErrChan, result, cause, terminal, pending, cancelledAtReturn, hpc, epc, ecalls, eres, retRes, retWhy>>
+ConnectOk == \E n \in 0..MaxPkts : ConnectOkN(n)
 ConnectFail ==
   /\ spc = "connect"
   /\ ReturnWith("err", "connect")
@@ -124,18 +128,27 @@ Spawn ==
   /\ spc' = "select"
   /\ UNCHANGED <<att, net, sock, ctxDone, held, errBuf, errClosed, evClosed, doneClosed, result, cause, terminal, pending, cancelledAtReturn, hpc, epc, ecalls, eres, retRes, retWhy>>
 
-\* parseEvents returned (res, why): Stream is about to run its deferred conn.close() and return
+\* parseEvents returned (res, why): Stream is about to run its deferred conn.close() (CloseDone, CloseSocket) and return
 CloseAndReturn(res, why) ==
   /\ spc' = "closing"
   /\ retRes' = res /\ retWhy' = why
 
-\* deferred conn.close() + return: closes done, closes the socket (which unblocks a reader inside ReadPacket)
-DeferredClose ==
+\* deferred conn.close() and the return, in the three steps of the code: close(done) (lets a reader parked on the
+\* hand-off leave), dc.Close() (closes the socket, which unblocks a reader inside ReadPacket), return
+CloseDone ==
   /\ spc = "closing"
   /\ doneClosed' = [doneClosed EXCEPT ![att] = TRUE]
+  /\ spc' = "closeSock"
+  /\ UNCHANGED <<att, net, sock, ctxDone, rpc, held, errBuf, errClosed, evClosed, sErrChan, result, cause, terminal, pending, cancelledAtReturn, hpc, epc, ecalls, eres, retRes, retWhy>>
+CloseSocket ==
+  /\ spc = "closeSock"
   /\ sock' = IF "noDeferredClose" \in Defects THEN sock ELSE [sock EXCEPT ![att] = "closed"]
+  /\ spc' = "return"
+  /\ UNCHANGED <<att, net, ctxDone, rpc, held, errBuf, errClosed, evClosed, doneClosed, sErrChan, result, cause, terminal, pending, cancelledAtReturn, hpc, epc, ecalls, eres, retRes, retWhy>>
+Return ==
+  /\ spc = "return"
   /\ ReturnWith(retRes, retWhy)
-  /\ UNCHANGED <<att, net, ctxDone, rpc, held, errBuf, errClosed, evClosed, sErrChan, terminal, pending, hpc, epc, ecalls, eres, retRes, retWhy>>
+  /\ UNCHANGED <<att, net, sock, ctxDone, rpc, held, errBuf, errClosed, evClosed, doneClosed, sErrChan, terminal, pending, hpc, epc, ecalls, eres, retRes, retWhy>>
 
 \* select: case ev, ok = <-events  (rendezvous with the reader's hand-off)
 ParserTakesEvent ==
@@ -201,16 +214,18 @@ ReaderCloseEv(a) ==
   /\ rpc' = [rpc EXCEPT ![a] = IF "closeEventsFirst" \in Defects THEN "pub" ELSE "exit"]
   /\ UNCHANGED <<att, spc, net, sock, ctxDone, held, errBuf, errClosed, doneClosed, sErrChan, result, cause, terminal, cancelledAtReturn, hpc, epc, ecalls, eres, retRes, retWhy, pending>>
 
-\* ReadPacket returns: a packet, or an error when the connection is broken or closed
+\* ReadPacket returns: a packet (the driver reads ahead into its buffer, so packets that arrived before the
+\* connection broke or was closed are still returned afterwards), or an error when the connection is broken or closed
 ReaderRead(a) ==
   /\ rpc[a] = "read"
-  /\ \/ /\ a = att /\ sock[a] = "open" /\ net # <<>>
-        /\ net' = Tail(net)
-        /\ IF Head(net) \in {"EOF", "ERR"}
-           THEN ReaderExit(a, Head(net), TRUE) /\ UNCHANGED held
-           ELSE /\ held' = [held EXCEPT ![a] = Head(net)]
-                /\ rpc' = [rpc EXCEPT ![a] = "handoff"]
-                /\ UNCHANGED <<errBuf, errClosed, evClosed, terminal, pending>>
+  /\ \/ /\ a = att /\ sock[a] # "none" /\ net > 0      \* also after the connection broke / was closed: data already received is still read
+        /\ net' = net - 1
+        /\ \E it \in Items :
+             IF it \in {"EOF", "ERR"}
+             THEN ReaderExit(a, it, TRUE) /\ UNCHANGED held
+             ELSE /\ held' = [held EXCEPT ![a] = it]
+                  /\ rpc' = [rpc EXCEPT ![a] = "handoff"]
+                  /\ UNCHANGED <<errBuf, errClosed, evClosed, terminal, pending>>
      \/ /\ sock[a] \in {"broken", "closed"}
         /\ ReaderExit(a, IF sock[a] = "broken" THEN "transport" ELSE "close", TRUE)
         /\ UNCHANGED <<net, held>>
@@ -273,7 +288,7 @@ ErrorRecv ==
 
 Next ==
   \/ Call \/ ConnectOk \/ ConnectFail \/ SendSetOk \/ SendSetFail \/ SendDumpOk \/ SendDumpFail \/ Spawn
-  \/ ParserTakesEvent \/ ParserSeesClosed \/ ParserSeesCtx \/ HandlerOk \/ HandlerErr \/ DeferredClose
+  \/ ParserTakesEvent \/ ParserSeesClosed \/ ParserSeesCtx \/ HandlerOk \/ HandlerErr \/ CloseDone \/ CloseSocket \/ Return
   \/ \E a \in Att : ReaderRead(a) \/ ReaderSeesCtx(a) \/ ReaderSeesDone(a) \/ ReaderPublish(a) \/ ReaderCloseErr(a) \/ ReaderCloseEv(a)
   \/ Cancel \/ Break \/ ErrorCall \/ ErrorRecv
 
@@ -282,7 +297,7 @@ Next ==
 LibFair ==
   /\ WF_vars(ConnectOk \/ ConnectFail) /\ WF_vars(SendSetOk \/ SendSetFail) /\ WF_vars(SendDumpOk \/ SendDumpFail)
   /\ WF_vars(Spawn) /\ WF_vars(ParserTakesEvent) /\ WF_vars(ParserSeesClosed) /\ WF_vars(ParserSeesCtx)
-  /\ WF_vars(HandlerOk \/ HandlerErr) /\ WF_vars(ErrorRecv) /\ WF_vars(DeferredClose)
+  /\ WF_vars(HandlerOk \/ HandlerErr) /\ WF_vars(ErrorRecv) /\ WF_vars(CloseDone) /\ WF_vars(CloseSocket) /\ WF_vars(Return)
   /\ \A a \in Att : WF_vars(ReaderRead(a)) /\ WF_vars(ReaderSeesCtx(a)) /\ WF_vars(ReaderSeesDone(a))
                     /\ WF_vars(ReaderPublish(a)) /\ WF_vars(ReaderCloseErr(a)) /\ WF_vars(ReaderCloseEv(a))
 
